@@ -14,6 +14,9 @@ import (
 // ErrChecksum indicates a checksum or file size mismatch on decode.
 var ErrChecksum = errors.New("lzhuf: invalid checksum")
 
+// ErrInvalidSize indicates that the size header is negative.
+var ErrInvalidSize = errors.New("lzhuf: invalid size header")
+
 // A Reader is an io.Reader that can be read to retrieve
 // uncompressed data from a lzhuf-compressed file.
 //
@@ -71,7 +74,13 @@ func NewReader(r io.Reader, crc16 bool) (*Reader, error) {
 	r = io.TeeReader(r, d.crcw)
 	d.r = newBitReader(r)
 
-	return d, binary.Read(r, binary.LittleEndian, &d.header.size)
+	if err := binary.Read(r, binary.LittleEndian, &d.header.size); err != nil {
+		return d, err
+	}
+	if d.header.size < 0 {
+		return nil, ErrInvalidSize
+	}
+	return d, nil
 }
 
 // Close closes the Reader. It does not close the underlying io.Reader.
@@ -101,6 +110,10 @@ func (d *Reader) Close() error {
 //
 // At EOF, count is 0 and err is io.EOF (unless len(p) is zero).
 func (d *Reader) Read(p []byte) (n int, err error) {
+	if d.err != nil {
+		return 0, d.err
+	}
+
 	switch {
 	case d.r.Err() == io.EOF && d.state.pos < d.header.size:
 		d.err = io.ErrUnexpectedEOF
@@ -131,6 +144,11 @@ func (d *Reader) Read(p []byte) (n int, err error) {
 		i = (d.state.r - d.decodePosition() - 1) & (_N - 1)
 		j = c - 255 + _Threshold
 		for k = 0; k < j; k++ {
+			if d.state.pos == d.header.size {
+				// The match runs past the declared size: the stream is corrupt.
+				d.err = ErrChecksum
+				return n, nil
+			}
 			c = int(d.z.textBuf[(i+k)&(_N-1)])
 			if n < len(p) {
 				p[n] = byte(c)
